@@ -148,7 +148,7 @@ static uint32_t rng_state;
 enum ep_kind { EP_ACCEPT, EP_REFUSE, EP_LATE, EP_HANG, EP_IMMEDIATE };
 #define MAXFD 64
 #define FD_BASE 100
-struct rxchunk { unsigned char *data; size_t len, off; int kind; /* 0 data, 1 close, 2 reset */ };
+struct rxchunk { unsigned char *data; size_t len, off; int kind; /* 0 data, 1 close, 2 reset, 3 data already encoded, 4 data that ends the server's deflate stream (Z_FINISH) */ };
 struct simfd {
     int used, closed, connected;
     enum ep_kind kind;
@@ -351,7 +351,7 @@ ssize_t __wrap_recv(int fd, void *buf, size_t len, int flags)
     if (c->kind == 1) { f->rx_head++; errno = EAGAIN; return 0; }
     /* kinds 0 and 3 carry data */
     if (c->kind == 2) { f->rx_head++; errno = ECONNRESET; return -1; }
-    if (c->kind == 0 && c->off == 0 && fd_compressed(fd)) {
+    if ((c->kind == 0 || c->kind == 4) && c->off == 0 && fd_compressed(fd)) {
         /* the simulated server deflates this chunk (once) before it goes out */
         uLong bound;
         unsigned char *z;
@@ -360,7 +360,7 @@ ssize_t __wrap_recv(int fd, void *buf, size_t len, int flags)
         z = malloc(bound);
         f->zout.next_in = c->data; f->zout.avail_in = (uInt)c->len;
         f->zout.next_out = z; f->zout.avail_out = (uInt)bound;
-        deflate(&f->zout, Z_SYNC_FLUSH);
+        deflate(&f->zout, c->kind == 4 ? Z_FINISH : Z_SYNC_FLUSH);
         free(c->data);
         c->data = z; c->len = bound - f->zout.avail_out; c->kind = 3; /* 3 = data, already encoded */
     }
@@ -734,7 +734,10 @@ static void exec_cmd(char *cmd)
     } else if (!strcmp(argv[0], "use")) { cur = atoi(argv[1]);
     } else if (!strcmp(argv[0], "jid")) { NEEDC unsigned char *b = unhex(argv[1], NULL); xmpp_conn_set_jid(c, (char *)b); free(b);
     } else if (!strcmp(argv[0], "pass")) { NEEDC unsigned char *b = unhex(argv[1], NULL); xmpp_conn_set_pass(c, (char *)b); free(b);
-    } else if (!strcmp(argv[0], "cert")) { NEEDC xmpp_conn_set_client_cert(c, "cert.pem", "key.pem");
+    } else if (!strcmp(argv[0], "cert")) { NEEDC
+        /* `cert`: PEM certificate + key; `cert p12`: a PKCS#12 file (certificate argument only, no key) */
+        if (argc > 1 && !strcmp(argv[1], "p12")) xmpp_conn_set_client_cert(c, "cert.p12", NULL);
+        else xmpp_conn_set_client_cert(c, "cert.pem", "key.pem");
     } else if (!strcmp(argv[0], "flags")) { NEEDC
         int rc = xmpp_conn_set_flags(c, atol(argv[1]));
         tr("F=%d/%ld ", rc, xmpp_conn_get_flags(c));
@@ -773,11 +776,11 @@ static void exec_cmd(char *cmd)
         int n = argc > 1 ? atoi(argv[1]) : 1, i;
         for (i = 0; i < n; i++) { xmpp_run_once(ctx, 0); wflush_all(); tr("| "); }
     } else if (!strcmp(argv[0], "clock")) { now_ms += (uint64_t)atoll(argv[1]);
-    } else if (!strcmp(argv[0], "rx") || !strcmp(argv[0], "rxclose") || !strcmp(argv[0], "rxreset")) {
+    } else if (!strcmp(argv[0], "rx") || !strcmp(argv[0], "rxfin") || !strcmp(argv[0], "rxclose") || !strcmp(argv[0], "rxreset")) {
         struct simfd *f = cur_fd >= 0 ? &fds[cur_fd] : NULL;
         if (c && getfd(c->sock)) f = getfd(c->sock);
         if (!f) { tr("NOFD "); return; }
-        if (!strcmp(argv[0], "rx")) { size_t n; unsigned char *b = unhex(argv[1], &n); push_rx(f, 0, b, n); }
+        if (!strcmp(argv[0], "rx") || !strcmp(argv[0], "rxfin")) { size_t n; unsigned char *b = unhex(argv[1], &n); push_rx(f, argv[0][2] == 'f' ? 4 : 0, b, n); }
         else push_rx(f, !strcmp(argv[0], "rxclose") ? 1 : 2, NULL, 0);
     } else if (!strcmp(argv[0], "tx")) {
         struct simfd *f = cur_fd >= 0 ? &fds[cur_fd] : NULL;
@@ -789,7 +792,14 @@ static void exec_cmd(char *cmd)
             f->tx_tail++;
         }
     } else if (!strcmp(argv[0], "send")) { NEEDC do_send_text(c, argv[1], 0);
-    } else if (!strcmp(argv[0], "sendraw")) { NEEDC do_send_text(c, argv[1], 1);
+    } else if (!strcmp(argv[0], "sendraw")) { NEEDC
+        if (argc > 2) {
+            /* sendraw <hex> <n>: a slice of a longer NUL-terminated buffer, xmpp_send_raw(conn, buf, n) with n <= strlen(buf) */
+            size_t n, want = (size_t)strtoul(argv[2], NULL, 10);
+            unsigned char *b = unhex(argv[1], &n);
+            xmpp_send_raw(c, (char *)b, want < n ? want : n);
+            free(b);
+        } else do_send_text(c, argv[1], 1);
     } else if (!strcmp(argv[0], "sendst")) { NEEDC do_send_text(c, argv[1], 2);
     } else if (!strcmp(argv[0], "drop")) { NEEDC
         char *r = xmpp_conn_send_queue_drop_element(c, argv[1][0] == 'o' ? XMPP_QUEUE_OLDEST : XMPP_QUEUE_YOUNGEST);
